@@ -248,6 +248,30 @@ Theorem C17_mermaid_chart_shape : forall o s ls, mer_chart o s = Some ls ->
 Proof. exact mer_chart_shape. Qed.
 Print Assumptions C17_mermaid_chart_shape.
 
+(* the literal lines of both generators, lifted from the source by gen_facts
+   (every [yield] in source order; {placeholders} as code point 0, other
+   expressions as [1]): the model's line constants are these literals *)
+Theorem C17_mermaid_source_lines :
+  MERMAID_YIELDS =
+  [ L_md_open; L_dashes; L_title ++ HOLE; L_dashes; []; L_generator; []; L_flowchart ++ HOLE;
+    []; L_headers; []; L_nodes;
+    [48; 123; 123; 34]%Z ++ HOLE ++ [34; 125; 125]%Z;
+    HOLE ++ [40; 34]%Z ++ HOLE ++ [34; 41]%Z;
+    []; L_edges; [1%Z]; L_md_close ].
+Proof. exact mermaid_source_lines. Qed.
+Print Assumptions C17_mermaid_source_lines.
+
+Theorem C17_dot_source_lines :
+  DOT_INDENT = D_indent /\
+  DOT_YIELDS =
+  [ D_generator; D_digraph ++ HOLE ++ D_open; [];
+    HOLE ++ skipn 2 D_defaults; HOLE ++ skipn 2 D_graph ++ HOLE; HOLE ++ skipn 2 D_node ++ HOLE;
+    HOLE ++ skipn 2 D_edge ++ HOLE; [];
+    HOLE ++ skipn 2 D_nodes; HOLE ++ HOLE ++ HOLE; HOLE ++ HOLE ++ HOLE; [];
+    HOLE ++ skipn 2 D_edges; HOLE ++ HOLE ++ D_arrow ++ HOLE ++ HOLE; [125%Z] ].
+Proof. exact dot_source_lines. Qed.
+Print Assumptions C17_dot_source_lines.
+
 (* ======================================================================= RDF *)
 (* a triple SET: the has_child triples are exactly the image of the tree edges
    whose parent is exported -- whatever a node_mapper answers ([sk n]: it
@@ -385,6 +409,6 @@ Qed.
 Print Assumptions C17_D37_prerepair_refuted.
 
 (* the generated facts this property uses were lifted from the current source *)
-Theorem C17_generated_facts_present : GEN_MERMAID_OK = true.
-Proof. reflexivity. Qed.
+Theorem C17_generated_facts_present : GEN_MERMAID_OK = true /\ GEN_EXPORT_OK = true.
+Proof. split; reflexivity. Qed.
 Print Assumptions C17_generated_facts_present.
